@@ -324,6 +324,53 @@ def run(chk):
                 chk.sample({"a": case["a"], "expected": case["exp"]["ok"], "why": case["exp"]["why"],
                             "client_ok": o["c"]["ok"], "server_ok": o["s"]["ok"], "suite": o["c"].get("suite"),
                             "alerts": [(a["side"], a["dir"], a["desc"]) for a in o.get("alerts") or []]})
+    # histories: the judged handshake follows an earlier connection on the same session stores that was negotiated under ANOTHER
+    # server policy (the stored session may be resumed): whatever completes must still lie within both policies of the
+    # judged pair.  Pairs come from the 1/2-way records of DTLS 1.2; the earlier connection uses the same client and the same
+    # server with its EMS policy set to "request" (so that the earlier handshake is compatible whenever the rest is).
+    def keyof(c, s_):
+        return json.dumps([{k: (sorted(v) if isinstance(v, list) else v) for k, v in c.items()},
+                           {k: (sorted(v) if isinstance(v, list) else v) for k, v in s_.items()}], sort_keys=True)
+    index = {keyof(r["c"], r["s"]): r for r in low}
+    hist = []
+    for r in low:
+        if r["c"]["ver"] != "12" or r["s"]["ver"] != "12":
+            continue
+        for pre_ems in (0, 2):
+            s1 = dict(r["s"], ems=pre_ems)
+            pre = index.get(keyof(r["c"], s1))
+            if pre is None or pre["exp"]["ok"] != "must" or s1 == r["s"]:
+                continue
+            case = to_case(r, rng, cid)
+            cid += 1
+            case["c"]["store"] = case["s"]["store"] = True
+            case["pre"] = {"c": dict(case["c"]), "s": dict(case["s"], ems=pre_ems)}
+            hist.append(case)
+    if hist:
+        rows_h = run_cases(binary, hist, budget_ms=4000)
+        nres = nviol = 0
+        for case in hist:
+            o = rows_h[case["id"]]
+            if o.get("setupErr") or not o.get("preOk"):
+                continue
+            chk.evaluated(key="hist" + json.dumps(case["a"]) + str(case["pre"]["s"]["ems"]))
+            viol, _ = judge(case, o)
+            # only what holds for ANY completed handshake is judged here (values within both policies); whether the second
+            # handshake must complete at all is the single-connection question answered above
+            # (an abbreviated handshake has no key share and no signature: those two dimensions are not judged)
+            viol = [x for x in viol if x[0] in ("ems", "suite", "version", "srtp", "alpn", "cid",
+                                                "unsolicited-extension", "completed-without-common-value")]
+            if o["c"]["ok"] and o["s"]["ok"]:
+                nres += 1
+            if viol:
+                rr = run_cases(binary, [case], budget_ms=6000)
+                v2, _ = judge(case, rr[case["id"]])
+                v2 = [x for x in v2 if x[0] in [y[0] for y in viol]]
+                for kind, detail, extra in v2[:1]:
+                    nviol += 1
+                    chk.violation(dict(facts_of(case, rr[case["id"]], kind, detail, extra), history=True))
+        chk.parts["run.histories"] = {"cases": len(hist), "second_handshake_completed": nres, "violations": nviol}
+        chk.traces(len(hist))
     if total_ok < 500 or total_fail < 200:
         raise vlib.Inconclusive("vacuous negotiation run: %d completed, %d failed handshakes" % (total_ok, total_fail))
     chk.coverage["rule"] = ("TLC enumerates every assignment that differs from the base point in <= 3 of the 19 dimensions (client/server x "
